@@ -459,6 +459,7 @@ def evaluate(node, env):
         i = num(typeof(node[2]), i)
         if not (0 <= i < t[1]):
             raise Outside("index out of range")
+        _all_alternatives(node[2], env, typeof(node[2]), lambda m: 0 <= m < t[1], "index out of range (unselected alternative)")
         return (v >> i) & 1
     if k == "slice":
         v = evaluate(node[1], env)
@@ -520,8 +521,40 @@ def evaluate(node, env):
         i = num(typeof(node[2]), i)
         if not (0 <= i < t[2]):
             raise Outside("array index out of range")
+        _all_alternatives(node[2], env, typeof(node[2]), lambda m: 0 <= m < t[2], "array index out of range (unselected alternative)")
         return v[i]
     raise IllTyped(f"unknown node {k}")
+
+
+def alternatives(node, env):
+    """Values an operand can hold transiently: the emitted design computes `a if c else b` and select_with through a
+    selected assignment whose selector may lag one delta cycle behind the alternatives (and is FALSE at time 0 for
+    boolean conditions), so an operand with a domain constraint (divisor, index, shift amount) must satisfy the
+    constraint for every alternative, not only for the selected one; otherwise the valuation is outside the alphabet."""
+    k = node[0]
+    if k == "if":
+        t = typeof(node)
+        out = set()
+        for e in (node[2], node[3]):
+            for v in alternatives(e, env):
+                out.add(wrap(t, v) if is_lit(e) and v is not OPEN else v)
+        return out
+    if k == "sel":
+        t = typeof(node)
+        out = set()
+        for e in [e for _, e in node[2]] + ([node[3]] if node[3] is not None else []):
+            for v in alternatives(e, env):
+                out.add(wrap(t, v) if is_lit(e) and v is not OPEN else v)
+        return out
+    return {evaluate(node, env)}
+
+
+def _all_alternatives(node, env, t, pred, why):
+    for v in alternatives(node, env):
+        if v is OPEN:
+            continue
+        if not pred(num(t, v)):
+            raise Outside(why)
 
 
 def _bin_val(node, env):
@@ -538,8 +571,10 @@ def _bin_val(node, env):
             # an int operand takes the type of the vector operand
             vt = tl if is_num(tl) else tr
             a, b = num(tl, lv), num(tr, rv)
-            if op in ("fdiv", "tdiv", "mod", "rem") and b == 0:
-                raise Outside("division by zero")
+            if op in ("fdiv", "tdiv", "mod", "rem"):
+                if b == 0:
+                    raise Outside("division by zero")
+                _all_alternatives(r, env, tr, lambda n: n != 0, "division by zero (unselected alternative)")
             for e, tt, vv in ((l, tl, lv), (r, tr, rv)):
                 if tt == INT and not representable(vt, vv):
                     if is_lit(e):
@@ -554,6 +589,8 @@ def _bin_val(node, env):
         else:
             if b == 0:
                 raise Outside("division by zero")
+            if t == INT:
+                _all_alternatives(r, env, tr, lambda n: n != 0, "division by zero (unselected alternative)")
             if op in ("fdiv", "tdiv"):
                 n = _trunc_div(a, b)
             elif op == "mod":
@@ -569,6 +606,7 @@ def _bin_val(node, env):
         n = num(tr, rv)
         if n < 0:
             raise Outside("negative shift amount")
+        _all_alternatives(r, env, tr, lambda m: m >= 0, "negative shift amount (unselected alternative)")
         w = tl[1]
         if op == "shl":
             return (lv << n) & mask(w) if n < w + 1 else 0
